@@ -84,6 +84,14 @@ static void run(char* line) {
     /* stat structures */
     e = NS(ns, fd_fdstat_get)(I, fd, STAT); v("fdstat.errno", e); v("fdstat.filetype", L8(STAT)); v("fdstat.flags", L16(STAT + 2)); v("fdstat.rights_base", L64(STAT + 8)); v("fdstat.rights_inheriting", L64(STAT + 16));
     e = NS(ns, fd_filestat_get)(I, fd, STAT); v("fd_filestat.errno", e); filestat("fd_filestat", ns, STAT);
+    {   /* a descriptor opened with fdflags (APPEND | SYNC): the 16-bit flags field of fdstat is not zero */
+        U32 fd2;
+        e = NS(ns, path_open)(I, pre, 1, P_F, 1, 0, tw_rights(3), 0, 1 | 16, RES); v("path_open_append.errno", e); fd2 = (U32)L32(RES);
+        memset(hx_mem.data + STAT, 0xAA, 64);
+        e = NS(ns, fd_fdstat_get)(I, fd2, STAT); v("fdstat_append.errno", e); v("fdstat_append.filetype", L8(STAT)); v("fdstat_append.flags", L16(STAT + 2));
+        v("fdstat_append.rights_base", L64(STAT + 8)); v("fdstat_append.rights_inheriting", L64(STAT + 16)); vs("fdstat_append.padding", STAT + 4, 4);
+        NS(ns, fd_close)(I, fd2);
+    }
     e = NS(ns, path_filestat_get)(I, pre, 1, P_SUB, 3, STAT); v("path_filestat.errno", e); filestat("path_filestat", ns, STAT);
     memset(hx_mem.data + NAME, 0xAA, 64);
     e = NS(ns, path_readlink)(I, pre, P_L, 3, NAME, 64, RES); v("readlink.errno", e); v("readlink.len", L32(RES)); vs("readlink.bytes", NAME, 20);
